@@ -39,6 +39,7 @@ type scheduler struct {
 	fatal   interface{}
 	choices int
 	preempt int
+	switches int
 	wg      sync.WaitGroup
 	nextID  int
 }
@@ -61,6 +62,7 @@ func (ex *Exec) schedKillAll() {
 	if s == nil {
 		return
 	}
+	ex.schedStats = [3]int{len(s.gs), s.switches, s.choices + s.preempt}
 	for _, g := range s.gs {
 		if g.id != 0 && g.state != gDone {
 			g.state = gDone
@@ -209,6 +211,7 @@ func (ex *Exec) switchTo(g, next *gor, done bool) {
 	}
 	next.state = gRunnable
 	s.cur = next
+	s.switches++
 	g.depth = ex.depth
 	ex.depth = next.depth
 	next.wake <- 1
